@@ -2,4 +2,4 @@ from props.common import run_bounded
 
 
 def run(report):
-    run_bounded(report, 'pep8')
+    run_bounded(report, ['pep8', 'blk'])
